@@ -159,6 +159,10 @@ def units_for(tier: str) -> List[Any]:
             units.append((p, s))
     for p in list(programs.with_actions(list(programs.linear_programs(1, ('S', 'Y1'), (), ('ret',))), ('out',))):
         units.append((p, ('output_emitted', 1, ('kill', 't1'))))
+    # a one-shot listener, registered before the recording one, unsubscribes itself from inside a notification
+    for p in list(programs.linear_programs(2, ('S', 'Y1'), ('cont', 'wait'), ('ret', 'raise', 'killcmd'))):
+        for ev in ('running', 'waiting', 'finished', 'excepted', 'killed'):
+            units.append((p, (ev, 1, ('oneshot',))))
     return units
 
 
@@ -183,11 +187,7 @@ def wc_units(tier: str) -> List[Any]:
     return units
 
 
-def is_wc_unit(unit: Any) -> bool:
-    try:
-        return unit[0][0][0][0] in ('gate', 'child')
-    except Exception:  # noqa: BLE001
-        return False
+from ._common import is_wc_unit  # noqa: E402
 
 
 def run_check(tier: str, seed: int, workers: Any) -> Dict[str, Any]:
